@@ -442,6 +442,21 @@ def install(reg):
         return VBool(kind_at(p, fs.kind0, str_term(p, path)) != ABSENT)
     SF["fs_exists0"] = s_fs_exists0
 
+    def s_first_part(p, path):
+        f = p.engine.uf("path_parts", S, PVSEQ)
+        return VStr(PV.sval(f(str_term(p, path))[0]))
+    SF["first_part"] = s_first_part
+
+    def s_fs_size0(p, path):
+        fs = fs_of(p)
+        return VInt(z3.Length(z3.Select(fs.data0, str_term(p, path))))
+    SF["fs_size0"] = s_fs_size0
+
+    def s_fs_isdir(p, path):
+        fs = fs_of(p)
+        return VBool(kind_at(p, fs.kind, str_term(p, path)) == DIR)
+    SF["fs_isdir"] = s_fs_isdir
+
     def s_fs_same(p, path):
         fs = fs_of(p)
         t = str_term(p, path)
@@ -485,6 +500,27 @@ def install(reg):
 
 def install_more(reg):
     SF = reg.spec_funcs
+    E = reg.externals
+    M = reg.methods
+
+    def path_new(p, args, kw):
+        t = str_term(p, args[0])
+        return p.alloc(HObj("Path", {"pathstr": VStr(t)}))
+    E["pathlib.Path"] = path_new
+
+    def path_parts(p, recv, args, kw):
+        t = p.heap[recv.rid].fields["pathstr"].t
+        f = p.engine.uf("path_parts", S, PVSEQ)
+        h = HList(seq=f(t))
+        h.tag["elem"] = "str"
+        p.engine.assumption("pathlib.Path(p).parts: the component sequence of p (uninterpreted; only its use as mkdir targets matters)")
+        return p.alloc(h)
+    M[("obj:Path", "@parts")] = path_parts
+
+    def path_parent(p, recv, args, kw):
+        t = p.heap[recv.rid].fields["pathstr"].t
+        return p.alloc(HObj("Path", {"pathstr": VStr(p.engine.uf("dirname", S, S)(t))}))
+    M[("obj:Path", "@parent")] = path_parent
 
     def s_fs_is_temp(p, path):
         t = str_term(p, path)
